@@ -24,7 +24,7 @@ func (p *Prog) inFns(prefixes ...string) func(*ssa.Function) bool {
 
 // dispatch sites of serve
 func (p *Prog) dispatchSites() []ssa.Instruction {
-	serve := p.MustFn("goat.handler.serve")
+	serve := p.serverReadLoopFn()
 	var out []ssa.Instruction
 	allInstrs(serve, func(i ssa.Instruction) {
 		if sel, ok := i.(*ssa.Select); ok {
@@ -49,7 +49,7 @@ func (p *Prog) dispatchSites() []ssa.Instruction {
 // ---- C12.1 handler gate ----
 func ruleHandlerGate(c *Ctx, rule string) {
 	p := c.p
-	serve := p.MustFn("goat.handler.serve")
+	serve := p.serverReadLoopFn()
 	_, rpc := p.readResult(serve)
 	rp := p.lpath(rpc)
 	sites := p.dispatchSites()
@@ -229,7 +229,7 @@ func ruleServerNilChecks(c *Ctx, rule string) {
 // ---- C12.5 serving continues ----
 func ruleServingContinues(c *Ctx, rule string) {
 	p := c.p
-	serve := p.MustFn("goat.handler.serve")
+	serve := p.serverReadLoopFn()
 	rd, _ := p.readResult(serve)
 	readErr := extractOf(rd, 1)
 	var psr *ssa.Call
